@@ -162,6 +162,13 @@ def resource_sensitivity(ctx: Ctx):
     repo = os.environ.get("VERIF_REPO", "/repo")
     if not os.path.realpath(o["pin"]).startswith(os.path.realpath(repo) + os.sep):
         raise InfraError("cache resource runner imported executorlib from " + o["pin"])
+    # mutable results (runner shared with C09): what the caller does to a result must not reach the value of a later call
+    o2 = finish_json_child(start_json_child(["vh.cache_mut_runner"]), 400)
+    if o2 is None:
+        raise InfraError("mutable-result runner produced no output")
+    for c in o2["cases"]:
+        if c["submission"] != "executions":
+            o["cases"].append({"case": "mutable result, %s, submission %s" % (c["mode"], c["submission"]), "got": c["got"], "want": c["want"], "ok": c["ok"]})
     bad = [c for c in o["cases"] if not c["ok"]]
     for c in o["cases"]:
         ctx.case({"cache_resources": c["case"]})
